@@ -122,6 +122,8 @@ func GenFile(t *rapid.T) File {
 	f.TextTail = rapid.SampledFrom([]int{0, 0, 1, 64}).Draw(t, "text_tail")
 	f.FillSeed = rapid.Uint32().Draw(t, "fill")
 	f.Flags = rapid.SampledFrom([]uint32{0x2a, 0x4c, 0x30, 0x12c}).Draw(t, "e_flags")
+	// descriptors exist since code object V3 (ABI version 1); all shipped ones are V5 or V6
+	f.ABIVersion = rapid.SampledFrom([]int{0, 1, 2, 3, 4}).Draw(t, "abi_version")
 	f.MergedStrtab = rapid.Bool().Draw(t, "merged_strtab")
 	f.WithDynsym = rapid.Bool().Draw(t, "with_dynsym")
 	f.WithNote = rapid.Bool().Draw(t, "with_note")
